@@ -19,7 +19,7 @@ RULE = ('stratified: 5 profile types x smearing on/off x drift class {0, +-tiny,
 ASSUMPTIONS = ['mandatory pixels: general signal non-zero for box / truncated sinc^2; within FWHM/2 of a (smearing-copy) centre for '
                'gaussian / lorentzian / voigt, the voigt FWHM being computed numerically from the reference profile',
                'outside the mandatory set the helper may return either the general value or exactly 0 (optimisation box)',
-               'when |drift|/unit is within 1e-9 of an integer either neighbouring sub-step count is accepted',
+               'when |drift|/unit (float division) is within 1e-9 of an integer WITHOUT being exactly one, either neighbouring sub-step count is accepted; an exact integer ratio demands exactly that count',
                'the reference for the general signal is R-SIG (the real add_signal is only used to attribute a disagreement)']
 PROFILES = ['sinc2', 'box', 'gaussian', 'lorentzian', 'voigt']
 DRIFTS = [0.0, 1e-4, -1e-4, 0.5, -0.5, 1.0, -1.0, 1.5, -1.5, 4.0, -4.0, None, None]
@@ -28,7 +28,8 @@ DRIFTS = [0.0, 1e-4, -1e-4, 0.5, -0.5, 1.0, -1.0, 1.5, -1.5, 4.0, -4.0, None, No
 def required(tier):
     b = {f'profile:{p}': 20 for p in PROFILES}
     b.update({'smear:on': 100, 'smear:off': 100, 'drift:neg': 100, 'drift:zero': 20, 'drift:pos': 100,
-              'width:sub-channel': 50, 'start:outside': 10, 'start:edge': 10, 'units:quantity': 50})
+              'width:sub-channel': 50, 'start:outside': 10, 'start:edge': 10, 'units:quantity': 50,
+              'smear:drift-exact-multiple-of-unit': 40})
     return {'buckets': b, 'counters': {'mandatory_pixels': 5000}, 'checks': 500, 'nontrivial': 200}
 
 
@@ -113,10 +114,13 @@ def run_case(c, R):
     R.check(isinstance(h, np.ndarray) and h.shape == tuple(fr.shape), 'return-shape')
     R.check(np.array_equal(fr.data, h), 'helper-data-delta-differs-from-return')
     # sub-step count for the smeared general signal
-    ratio = abs(drift) / fr.unit_drift_rate
+    ratio = abs(drift) / fr.unit_drift_rate          # the same two floats the property names: |drift| / unit drift
     ns = [max(1, math.ceil(ratio))]
-    if abs(ratio - round(ratio)) < 1e-9 and round(ratio) >= 1:
+    if ratio != round(ratio) and abs(ratio - round(ratio)) < 1e-9 and round(ratio) >= 1:
+        # not representable as an integer but within rounding of one: another evaluation order may land on the other side
         ns = sorted({max(1, int(round(ratio))), max(1, int(round(ratio)) + 1)})
+    elif ratio == round(ratio) and ratio >= 1 and c['smear']:
+        R.bucket('smear:drift-exact-multiple-of-unit')
     spec = general_spec(c, f_start, drift, width)
     verdicts = []
     for n in ns:
